@@ -78,14 +78,27 @@ def gen_rank(rnd: random.Random, rank: int, p: Dict[str, Any]) -> Dict[str, Any]
                  "pid": rnd.choice([0, 1]) if device else host_pid,
                  "tid": rnd.choice([7, 20, 24]) if device else rnd.choice([host_pid, host_pid + 1]),
                  "ts": T(ts), "dur": D(rnd.choice([0, 0, 1, 2, 10, 100]))}
+            tid_num, pid_num = e["tid"], e["pid"]
+            if p.get("odd_labels"):
+                x = rnd.random()
+                if x < 0.12:
+                    e["tid"] = f"stream {e['tid']}" if device else "python main"       # older Kineto layout: textual thread labels
+                elif x < 0.18:
+                    e["pid"] = "GPU 0" if device else "python"
+                elif x < 0.26:
+                    del e["tid"]                                                      # pid / tid are optional in the trace format
+                elif x < 0.30:
+                    del e["pid"]
+                elif x < 0.33:
+                    e["tid"] = None
             a = rnd.random()
             if a < 0.7:
                 args: Dict[str, Any] = {}
                 if device:
-                    args["stream"] = e["tid"] if rnd.random() < 0.8 else rnd.choice(["7", "abc", -1, 0])
-                    args["device"] = e["pid"]
+                    args["stream"] = tid_num if rnd.random() < 0.8 else rnd.choice(["7", "abc", -1, 0])
+                    args["device"] = pid_num
                 elif rnd.random() < 0.08:
-                    args["stream"] = rnd.choice(["7", "x", -1])
+                    args["stream"] = rnd.choice(["7", "x", -1, "0x0", "0x55d0c8a0", " 7 "])     # ROCm host calls carry a hex handle
                 if rnd.random() < 0.7:
                     c = rnd.randint(0, 120) if corr_small else rnd.choice([rnd.randint(0, 120), rnd.randint(2 ** 20, 2 ** 31 - 1), rnd.randint(2 ** 31, 2 ** 32 - 1)])
                     # side by the documented rule (after stream normalisation): an id occurs at most once per side
@@ -157,7 +170,7 @@ def gen_fileset(rnd: random.Random, tier: str, big: bool = False) -> Dict[str, A
          "trange": rnd.choice([3, 20, 300, 5000]), "vocab": rnd.choice([1, 4, 12]),
          "steps": rnd.choice([0, 0, 0, 1]), "p_complete": rnd.choice([0.55, 0.7, 0.9, 1.0]),
          "shuffle": rnd.random() < 0.4, "per_rank_offset": rnd.choice([0, 0, 1000, -7]),
-         "field_like_args": rnd.random() < 0.3}
+         "field_like_args": rnd.random() < 0.3, "odd_labels": rnd.random() < 0.25}
     files = {}
     for r in range(n_ranks):
         q = dict(p)
